@@ -146,6 +146,9 @@ def self_test_exprs(cases: List[Tuple[str, Callable[..., int], List[Tuple[int, .
             lean_args = ' '.join(f'({a} : Int)' for a in args)
             lines.append(f'#eval ({name} {lean_args} : Int)')
             expected.append(str(fn(*args)))
+    ok, log = vlib.lake_build([lean_module])      # the generated file may just have changed
+    if not ok:
+        return ['generated module does not build: ' + log[-400:]]
     path = os.path.join(vlib.LEAN_DIR, 'Audit', f'_selftest_{namespace.replace(".", "_")}.lean')
     vlib.write_if_changed(path, '\n'.join(lines) + '\n')
     p = subprocess.run(['lake', 'env', 'lean', path], cwd=vlib.LEAN_DIR, text=True,
